@@ -746,7 +746,11 @@ ATOF_HARD = [b"9007199254740993", b"9007199254740993.0000001", b"900719925474099
              b"0.1", b"0.3", b"123456789012345678", b"18446744073709551615.5", b"9223372036854775807.5", b"4294967295.999",
              b"-2147483648.9", b"1e19", b"1.8446744073709552e19", b"9.223372036854775807e18", b"+.5", b"-.5e-0", b"1e+", b"1e-",
              b"0e99999", b"1e-99999", b"00000000000000000000000001", b"0.000000000000000000000000000000001e33",
-             b"+-1", b"-+1", b"- 1", b"--1", b"+ 1", b"-0", b"+0", b"-00", b"0x7fffffff", b"1_000"]
+             b"+-1", b"-+1", b"- 1", b"--1", b"+ 1", b"-0", b"+0", b"-00", b"0x7fffffff", b"1_000",
+             # integer values from 2^64 on (dOfNat -> dOfRatQ n 1) and texts without an integer part
+             b"18446744073709551616", b"18446744073709553665", b"1e25", b"123456789012345678901234567890", b"1.5e30",
+             b"9007199254740993e10", b"1e300", b"1.7976931348623157e308", b"36893488147419103233", b"5e-324", b"4.9e-324",
+             b".5", b"-.25e3", b".0", b"5.", b"5.e-3", b".5e", b"+.1e1", b".e1", b"0.5e+", b"12.50e-1"]
 
 
 def boundary_strings():
